@@ -5,7 +5,7 @@ import os
 import re
 from pathlib import Path
 
-from lib.common import COQ, REPO, enc_str, dec_str, model_run_parallel, src_hashes, write_if_changed
+from lib.common import COQ, REPO, enc_str, dec_str, dec_strs, model_run_parallel, src_hashes, write_if_changed
 
 PID = "C10"
 RULE = ("correspondence (three-way): extracted Coq model <-> section['slug'] in the doctree (docutils front end) <-> output of "
@@ -25,7 +25,10 @@ ORACLES = {"O_mdit_inline": "markdown-it's inline token children of a heading (t
            "O_re_class": "re: [^\\w\\u4e00-\\u9fff\\- ] removes exactly the characters outside the class; \\w = isalnum or '_': "
                          "slugify vs model on every code point",
            "O_str_lower": "str.lower is character-wise except for capital sigma: checked by the generator on 20000 strings, and by the correspondence",
-           "O_docutils_ids": "docutils set_id gives every section/rubric a distinct id (resolvability search)"}
+           "O_make_id": "docutils.nodes.make_id / fully_normalize_name are external: the set_id model takes make_id(name) and make_id(tagname) "
+                        "as inputs; the ids docutils assigns to the sections/rubrics are compared with the model's assign_ids on every document",
+           "O_resolve_transform": "coq/Refs/Anchors.v (C09 builder) models ResolveAnchorIds.apply; here it is exercised end to end by the "
+                                  "resolvability search (docutils) and the Sphinx correspondence ('#slug' links get the heading's id)"}
 ASSUMPTIONS = ["dict iteration order = insertion order", "myst-anchors is run on the same file with the default configuration; "
                "headings inside directive bodies / included files are invisible to it (not part of the comparison)"]
 
@@ -136,8 +139,22 @@ def impl_render(text, depth, func, transforms=False):
     return hn, wl, warns, doc
 
 
+def id_info(hn):
+    """per section/rubric: (make_id(name), make_id(tagname), first id) - the inputs and the result of docutils set_id"""
+    from docutils import nodes
+    out = []
+    for n in hn:
+        names = list(n["names"]) + list(n.get("dupnames", []))
+        out.append((nodes.make_id(names[0]) if names else "", nodes.make_id(n.tagname), n["ids"][0] if n["ids"] else None))
+    return out
+
+
+LAST_IDS = [None]
+
+
 def impl_outs(text, depth, func, hs):
     hn, wl, warns, doc = impl_render(text, depth, func)
+    LAST_IDS[0] = id_info(hn)
     if len(hn) != len(hs):
         return "!heading-count %d vs %d" % (len(hn), len(hs))
     outs = []
@@ -290,7 +307,7 @@ def _impl_pair(args):
                     i_cli = impl_cli(c["text"], c["depth"], d)
                 except Exception as e:
                     i_cli = "!" + type(e).__name__
-            out.append((i_outs, i_cli))
+            out.append((i_outs, i_cli, LAST_IDS[0]))
     return out
 
 
@@ -384,6 +401,7 @@ def corr(ctx):
         idx.append(a)
     mouts = model_run_parallel(PID, lines)
     nd = 0
+    idcases = []
     todo = [(c, hs) for c, hs, a in zip(cases, parsed, idx) if mouts[a] != "!unsupported"]
     impl_res = [r for part in pmap_chunks(_impl_pair, todo) for r in part]
     it = iter(impl_res)
@@ -392,7 +410,9 @@ def corr(ctx):
         if m_r == "!unsupported":
             ctx.count("doc:unsupported-by-model")
             continue
-        i_outs, i_cli = next(it)
+        i_outs, i_cli, ids = next(it)
+        if ids is not None:
+            idcases.append((c, ids))
         m_outs = dec_outs(m_r) if not m_r.startswith("!") else m_r
         ctx.corr_cases += 1
         ctx.count("doc:" + c["func"])
@@ -410,9 +430,105 @@ def corr(ctx):
                 nd += 1
                 if nd <= 20:
                     ctx.disagree("myst-anchors", dict(c, kind="doc"), i_cli, m_cli)
+    # (3) docutils set_id: the ids of the sections / rubrics against the model (make_id taken from docutils)
+    lines = ["setid\t" + (";".join("%s|%s" % (enc_str(b), enc_str(t)) for b, t, _ in ids) if ids else ".") for _, ids in idcases]
+    for (c, ids), o in zip(idcases, model_run_parallel(PID, lines)):
+        ctx.corr_cases += 1
+        want = [i for _, _, i in ids]
+        got = dec_strs(o) if not o.startswith("!") else o
+        if got != want:
+            nd += 1
+            if nd <= 20:
+                ctx.disagree("docutils set_id", dict(c, kind="doc"), want, got)
+    ctx.count("set_id-docs", len(idcases))
+    if ctx.tier == "thorough" or ctx.deep:
+        corr_sphinx(ctx)
     if cases:
         ctx.sample(cases[len(cases) // 3])
         ctx.sample(cases[-1])
+
+
+# ------------------------------------------------------------------ Sphinx front end (thorough tier)
+
+def corr_sphinx(ctx):
+    """model <-> section['slug'] / heading_slug warnings / env.metadata[doc]['myst_slugs'] / resolution of '#slug' links,
+    through in-process Sphinx builds (one project per depth x slug function)"""
+    import random
+    import shutil
+    from docutils import nodes
+    from lib.impl import SphinxProject
+    rng = random.Random("%s-sphinx-%s" % (ctx.seed, ctx.tier))
+    groups = [(d, f) for d in (0, 1, 2, 3, 6, 7) for f in ("default", "default", "rev", "raiseb")]
+    per = ctx.budget(0, 50, 50)
+    nd = 0
+    for depth, func in groups:
+        docs = []
+        while len(docs) < per:
+            text = rand_doc(rng) if rng.random() < 0.8 else "".join("# %s\n\n" % rng.choice(SMALL_TITLES) for _ in range(rng.randint(1, 5)))
+            docs.append(text)
+        parsed = [headings_of(t) for t in docs]
+        mouts = model_run_parallel(PID, ["render\t%d\t%s\t%s" % (depth, func, enc_headings(hs)) for hs in parsed])
+        keep = [(t, hs, mo) for t, hs, mo in zip(docs, parsed, mouts) if not mo.startswith("!")]
+        files = {"index.md": "# index\n"}
+        for k, (t, hs, mo) in enumerate(keep):
+            slugs = [o[1:] for o in dec_outs(mo) if o.startswith("=")]
+            links = ("\n\n" + "\n\n".join("[](#%s)" % s for s in slugs) + "\n") if func == "default" else ""
+            files["d%d.md" % k] = t + links
+        conf = "myst_heading_anchors = %d\n" % depth
+        if func != "default":
+            conf += "myst_heading_slug_func = 'props.C10.f_%s'\n" % func
+        try:
+            res = SphinxProject(files, conf=conf, builder="dummy").build(keep=True)
+        except Exception as e:
+            ctx.disagree("sphinx build", {"kind": "sphinx", "depth": depth, "func": func}, "!" + type(e).__name__ + ": " + str(e)[:300], "")
+            continue
+        try:
+            env = res["app"].env
+            wl = [re.sub(r"\x1b\[[0-9;]*m", "", l) for l in res["warnings"].splitlines()]
+            for k, (t, hs, mo) in enumerate(keep):
+                ctx.corr_cases += 1
+                ctx.count("sphinx:doc")
+                m_outs = dec_outs(mo)
+                m_dict = [dec_str(x.rsplit(":", 1)[0]) for x in mo.split("\t")[1].split(";")] if mo.split("\t")[1] != "." else []
+                doc = env.get_doctree("d%d" % k)
+                hn = list(doc.findall(lambda n: isinstance(n, (nodes.section, nodes.rubric))))
+                mine = [l for l in wl if re.search(r"(?<![A-Za-z0-9_])d%d\.md[^: ]*:" % k, l)]
+                bad = None
+                if len(hn) != len(hs):
+                    bad = ("heading count", len(hn), len(hs))
+                else:
+                    i_outs = []
+                    for node, (lv, ch, line) in zip(hn, hs):
+                        nw = len([l for l in mine if "[myst.heading_slug]" in l and re.search(r":%d: " % line, l)])
+                        if "slug" in node:
+                            i_outs.append("=" + node["slug"] if nw == 0 else "!slug-and-warning")
+                        else:
+                            i_outs.append("N" if nw == 0 else "W" if nw == 1 else "!%d-warnings" % nw)
+                    table = env.metadata.get("d%d" % k, {}).get("myst_slugs", {})
+                    if i_outs != m_outs:
+                        bad = ("slugs", i_outs, m_outs)
+                    elif list(table) != m_dict:
+                        bad = ("env.metadata myst_slugs keys", list(table), m_dict)
+                    else:
+                        own = {n["slug"]: n["ids"][0] for n in hn if "slug" in n}
+                        if {s: v[1] for s, v in table.items()} != own:
+                            bad = ("myst_slugs section ids", {s: v[1] for s, v in table.items()}, own)
+                        elif func == "default" and own:
+                            rdoc = env.get_and_resolve_doctree("d%d" % k, res["app"].builder)
+                            want = [own[o[1:]] for o in m_outs if o.startswith("=")]
+                            refs = [r.get("refid") for r in rdoc.findall(nodes.reference)][-len(want):]
+                            nlines = t.count("\n") + 1
+                            miss = [l for l in mine if "xref_missing" in l and int(re.search(r":(\d+): ", l).group(1)) > nlines]
+                            ctx.count("sphinx:links-resolved", len(want))
+                            if refs != want or miss:
+                                bad = ("'#slug' links", {"refids": refs, "missing": miss[:3]}, want)
+                if bad:
+                    nd += 1
+                    if nd <= 10:
+                        ctx.disagree("sphinx " + bad[0], {"kind": "doc", "text": t, "depth": depth, "func": func, "front_end": "sphinx"},
+                                     bad[1], bad[2])
+        finally:
+            shutil.rmtree(os.path.dirname(res["src"]), ignore_errors=True)
 
 
 # ------------------------------------------------------------------ direct property oracle
@@ -568,5 +684,7 @@ LEVEL_TEXT = ("Proof (Coq): for every base slug and set of existing slugs the re
               "slug, look up to their own heading, and (default function) equal the myst-anchors output. Tied to the code by "
               "regenerated slugify shape/regex class/Unicode tables and a three-way differential correspondence on every run.")
 LEVEL_NOTE = ("Trusted: Coq kernel; transcription of the loops (checked by correspondence); markdown-it inline tokenisation (oracle, same "
-              "tokens on both sides); docutils id assignment and the ResolveAnchorIds transform are exercised by the search only "
-              "(C10_resolvable_model covers the slug dictionary, not docutils); capital sigma titles are outside the model.")
+              "tokens on both sides); C10_resolvable composes the slug assignment with the C09 builder's model of ResolveAnchorIds.apply "
+              "(coq/Refs/Anchors.v) and a model of docutils set_id (make_id external); C10_matches_cli is partial: exactly the titles with an "
+              "ASCII space in their stripped edges disagree (C10_slug_agree_iff, open finding); capital sigma titles are outside the model. "
+              "Thorough tier repeats the correspondence through in-process Sphinx builds (slugs, env.metadata myst_slugs, '#slug' links).")
